@@ -8,12 +8,21 @@ wt=$1; sd=$(realpath "$2")
 cd "$wt" || exit 2
 export CARGO_TARGET_DIR="$wt/target" CARGO_NET_OFFLINE=true
 git checkout -q -- . ; rm -f tests/seed_demo.rs
-cp "$sd/demo.rs" tests/seed_demo.rs
+# demo.rs = integration test; demo.sh = script taking the rsbdd binary (or, with DEMO_ARG=dir, target/debug)
+rundemo() {
+  if [ -f "$sd/demo.rs" ]; then timeout 600 cargo test --offline --test seed_demo
+  else
+    arg="$wt/target/debug/rsbdd"; grep -q "dir-with-built-binaries\|DEMO_ARG=dir" "$sd/NOTES.md" "$sd/demo.sh" 2>/dev/null && arg="$wt/target/debug"
+    [ "${DEMO_ARG:-}" = dir ] && arg="$wt/target/debug"
+    timeout 600 bash "$sd/demo.sh" "$arg"
+  fi
+}
+[ -f "$sd/demo.rs" ] && cp "$sd/demo.rs" tests/seed_demo.rs
 cargo build --offline --workspace >/dev/null 2>&1
-if cargo test --offline --test seed_demo >/tmp/vs-demo0.log 2>&1; then d0=pass; else d0=FAIL; fi
+if rundemo >/tmp/vs-demo0.log 2>&1; then d0=pass; else d0=FAIL; fi
 if ! git apply "$sd/patch.diff"; then echo "patch does not apply"; rm -f tests/seed_demo.rs; exit 1; fi
 cargo build --offline --workspace >/dev/null 2>&1
-if timeout 600 cargo test --offline --test seed_demo >/tmp/vs-demo1.log 2>&1; then d1=PASS; else d1=fail; fi
+if rundemo >/tmp/vs-demo1.log 2>&1; then d1=PASS; else d1=fail; fi
 rm -f tests/seed_demo.rs
 timeout 900 cargo test --workspace --no-fail-fast --offline >/tmp/vs-base.log 2>&1
 passed=$(grep -E "^test result" /tmp/vs-base.log | awk '{p+=$4; f+=$6} END {print p"/"f}')
